@@ -173,8 +173,10 @@ CHECKS = {
         text="Refs.tla enumerates, for 11 base definitions with literal slots, EVERY subset of slots replaced by value references x placement "
              "(same module, sibling by name, sibling by name+OID, OID with a same-named decoy module) x EVERY load order, plus negative "
              "variants per slot; the real resolver must deliver the canonical model of the literal spelling, or a resolve error for the "
-             "negatives - never a silently substituted bound.",
-        design_ref="DESIGN.md section 7, C12",
+             "negatives - never a silently substituted bound. Converter.tla: the file-level load / generate machine of src/converter.rs; every "
+             "history of 5 (6) steps is replayed on the real Converter: result classes, a failed step changes nothing, and what is written "
+             "depends only on the set of loaded files (file contents compared with a fresh converter).",
+        design_ref="DESIGN.md section 7, C12; 11.7",
         note="Metamorphic relation of the property (literal spelling = reference); one open finding (kind of a referenced DEFAULT value).",
         technique="TLA+ enumeration of reference subsets / placements / load orders replayed into the real resolver"),
     "C14": dict(
@@ -182,8 +184,8 @@ CHECKS = {
         text="MC_TokenFaults.tla generates the input space as fault descriptors over lexical items and characters (every single deletion, "
              "swap, truncation, insertion of 48 vocabulary items / 18 characters at every position), all token soups up to length 2 (3 "
              "thorough) and simulated 1..4-fault behaviours; each is applied to every seed module and run through the whole front end under "
-             "a watchdog. Only Ok/Err is allowed, the sole sanctioned panic is the documented one; parse errors must carry a token that is "
-             "at its reported location in the input.",
+             "a watchdog. Only Ok/Err is allowed, the sole sanctioned panic is the documented one - sanctioned for exactly the inputs that "
+             "Lexer!Unterminated calls unterminated; parse errors must carry a token that is at its reported location in the input.",
         design_ref="DESIGN.md section 7, C14",
         note="The specification supplies inputs and fault histories, not the expected Ok/Err; termination is observed under a watchdog.",
         technique="TLA+ fault machine enumerated / simulated by TLC, replayed into the real front end in a sandbox"),
@@ -195,7 +197,9 @@ CHECKS = {
              "are written with both writer back ends (identical bytes required) and read back; the result must equal the original up to "
              "proto3 default equivalence; every case runs under a watchdog and an allocation limit.",
         design_ref="DESIGN.md section 7, C17",
-        note="Values beyond 2^31-1 are outside the family (TLC integers). Two open findings (lists nested in lists, list alternatives of a CHOICE).",
+        note="64-bit values enter through Big.tla numbers (one message of uint64 / sint64 fields over every 2^k boundary; the wire primitives "
+             "in MC_ProtoPrim); the fixed-slice back end is also run on slices of every capacity 0..48 (success with other octets is the "
+             "violation), every message also as second message of a writer. Two open findings (lists nested in lists, list alternatives of a CHOICE).",
         technique="TLC-enumerated schemas/values replayed into the real protobuf writer/reader (sandboxed)"),
     "C18": dict(
         category="model_checking",
